@@ -23,7 +23,10 @@ CLAIM = {
             "Index<Namespace> reads slot index.0; Namespaces::get_namespace returns the position of the equal name. "
             "ToKey::get_key of class/field/method takes the name from first_name() with the error propagated (no default), "
             "first_name reads slot 0, add_child fails on an occupied key, map_with_key_from_result_iter passes every element "
-            "and every error on. Premises evaluated with it: C06 R06.2/R06.4 (remapper_a table provenance, map_desc).",
+            "and every error on. Premises evaluated with it: C06 R06.2/R06.4 (remapper_a table provenance, map_desc) and the part of C06 R06.1 on "
+            "reorder's call path: the ARemapper default methods (map_class = entry or else the unchanged name; map_*_desc = map_desc), "
+            "ARemapperImpl::map_class_fail = the plain look-up in the table (a class without an entry is answered with None, nothing derived "
+            "from other entries), no implementation in quill::remapper overrides a default method.",
     "note": "Not decided: the permutation / inverse / identity laws as behaviour, that `namespaces` is a permutation (a repeated "
             "namespace is not rejected by reorder itself), correctness of remapper_a and map_desc (C06). "
             "Trusted: rustc HIR/typeck and ADT tables; spec/quill_reorder.json (transcribed from the property statement and docs).",
@@ -34,7 +37,11 @@ CLAIM = {
 
 
 # rules of sibling properties that decide code on this property's own call path: reorder re-expresses keys and descriptors through remapper_a / map_desc (C06)
-PREMISES = [("C06", ["R06.2", "R06.4"])]
+# ... and every class name in a descriptor goes ARemapper::map_*_desc -> map_desc -> ARemapper::map_class (default: the entry or else the name
+# itself) -> ARemapperImpl::map_class_fail (the plain look-up in the remapper_a table: a class without an entry is unmapped and must come
+# back unchanged; seed C08-9 added an `Outer$Inner follows Outer` fallback there).  Selectors ending in `:` are key prefixes.
+PREMISES = [("C06", ["R06.2", "R06.4", "R06.1:default:ARemapper:", "R06.1:impl:ARemapperImpl:", "R06.1:no-override:quill::remapper:",
+                     "R06.1:required-methods:ARemapper", "R06.1:default-methods:ARemapper"])]
 
 def run(F, R, tier):
     with open(SPEC) as f:
@@ -111,6 +118,7 @@ def r08_2(q, R, spec):
     b = _reorder_fn(q)
     table = None
     if R.anchor(rid, "fn Mappings::reorder", b) and R.anchor(rid, "reorder parameters", len(b["params"]) == len(sr["params"]), b["sp"]):
+        b = U.unqualified(b)             # fully qualified method calls (`Iterator::zip(a, b)`, `Type::method(&mut x, ..)`) read as method calls
         nz = U.Norm(b, sr["params"])
         # the table: the mutable local handed to `reorder(.., table)`
         res = U.result_term(nz)
@@ -267,6 +275,7 @@ def r08_3(q, R, spec):
     mb = q.fn("map_with_key_from_result_iter")
     sm = spec["map_with_key_from_result_iter"]
     if R.anchor(rid, "fn map_with_key_from_result_iter", mb) and R.anchor(rid, "map_with_key_from_result_iter parameters", len(mb["params"]) == 1, mb["sp"]):
+        mb = U.unqualified(mb)
         nz = U.Norm(mb, sm["params"])
         res = U.result_term(nz)
         calls = U.calls_named(mb["body"], "add_child")
